@@ -247,6 +247,20 @@ def c05(tier, rep):
     # every keyword as a document through the real parser
     cases = K.all_cases(1 if tier == "quick" else 4) + K.foreign_cases(SEED, 300 if tier == "quick" else 3000) + K.header_cases(SEED, 400 if tier == "quick" else None)
     cases += K.star_cases() + K.english_cases() + E.src_limits()
+    # a matcher whose DEFAULT dialect shares a step keyword with the dialect the header switches to (the keyword's type is the one of the dialect in force)
+    table = json.loads(a)
+    steps = {d: {k for role in ("given", "when", "then", "and", "but") for k in table[d][role] if k != "* "} for d in table}
+    n_pairs = 0
+    for d1 in sorted(table):
+        for d2 in sorted(table):
+            shared = sorted(steps[d1] & steps[d2])
+            if d1 != d2 and shared:
+                n_pairs += 1
+                if tier == "quick" and n_pairs % 2:
+                    continue
+                body = "".join(f"    {k}x{i}\n" for i, k in enumerate(shared[:6]))
+                cases.append((f"shared-step-keyword:{d1}->{d2}", f"# language: {d2}\n{table[d2]['feature'][0]}: f\n  {table[d2]['scenario'][0]}: s\n{body}", d1))
+    rep.extra["dialect_pairs_sharing_a_step_keyword"] = n_pairs
     E.traces(rep, E.record_all(cases, listing=True), "keywords+foreign+headers+star", batch=2500)
     # the same documents through ONE re-used matcher: the dialect in force is the configured default unless the document says otherwise
     import sessions as S
@@ -323,6 +337,8 @@ def _stream_runs(tier, rep, n_gen):
     while k < len(srcs):
         m = r.randint(1, 5)
         opts = (True, True, True) if r.random() < 0.5 else r.choice(allopts)
+        if len(runs) % 3 == 2:      # the caller changes the options of the stream object between sources
+            opts = [r.choice(allopts) for _ in range(m)]
         rec, raw = S.record_run(f"stream{len(runs)}", srcs[k:k + m], opts)
         runs.append(rec)
         k += m
@@ -331,17 +347,23 @@ def _stream_runs(tier, rep, n_gen):
     for k in range(0, len(lims), 3):
         rec, raw = S.record_run(f"stream-limits{k}", lims[k:k + 3] + [("plain.feature", "Feature: second\n  Scenario: t\n    Given x\n")], allopts[(k // 3) % 8] if k % 2 else (True, True, True))
         runs.append(rec)
+    # one long stream: more sources through one stream object than any small-number threshold, a rejected one now and then, options switched twice on the way
+    n_long = 300 if tier == "quick" else 1100
+    long_srcs = [(f"long{i}.feature", ("Feature: f%d\n  Scenario: s\n    Given x\n" % i) if i % 9 else "Feature: f\n  junk%d\n  Scenario: s\n    Given x\n      | a |\n      | a | b |\n" % i)
+                 for i in range(n_long)]
+    rec, raw = S.record_run("stream-long", long_srcs, [(True, True, True) if i < n_long // 3 else (False, False, True) if i < 2 * n_long // 3 else (False, True, True) for i in range(n_long)])
+    runs.append(rec)
     return runs
 
 
 def _stream_part(tier, rep, own):
     import stream as S, tempfile, shutil, os, json
     streams, bad, res = S.model_check_and_replay(2 if tier == "quick" else 3)
-    rep.add_tlc("MC_Stream", res, f"{len(streams)} streams (sequences of pool sources x 8 option sets) replayed through GherkinEvents.enum; "
+    rep.add_tlc("MC_Stream", res, f"{len(streams)} streams (sequences of pool sources x 8 option sets x one change of options between two sources) replayed through GherkinEvents.enum; "
                 "Inv_C17_Order/Options/Uri/Rejected, Inv_C11_Unique/Dense, Act_Monotone")
     rep.traces += len(streams)
     for st in streams:
-        rep.case(("stream", tuple(st["seq"]), json.dumps(st["opts"], sort_keys=True)), nontrivial=len(st["seq"]) > 0)
+        rep.case(("stream", tuple(st["seq"]), json.dumps(st["optseq"], sort_keys=True), json.dumps(st["opts"], sort_keys=True)), nontrivial=len(st["seq"]) > 0)
     rep.sample({"stream": streams[len(streams) // 2]["seq"], "opts": streams[len(streams) // 2]["opts"], "envelopes": [len(x) for x in streams[len(streams) // 2]["segs"]]})
     for inv in sorted(set(res.invariant_violations)) + [e for e in res.errors if "ropert" in e]:
         if own(inv):
@@ -380,8 +402,8 @@ def c17(tier, rep):
     try:
         files = []
         odd = [(nm, f"Feature: {nm}\n  Scenario: s\n    Given x\n") for nm in ("z[1].feature", "z1.feature", "what?.feature", "whatX.feature", "st*r.feature", "star.feature", "a b.feature", "-x.feature"[1:])]
-        for k, (u, data) in enumerate(S.POOL[:4] + [("crlf.feature", "Feature: c\r\n  Scenario: s\r\n    Given x\r\n")] + odd):
-            p = os.path.join(d, f"{k}-{u}" if k < 5 else u)
+        for k, (u, data) in enumerate(S.POOL[:4] + [("crlf.feature", "Feature: c\r\n  Scenario: s\r\n    Given x\r\n"), S.POOL[5]] + odd):
+            p = os.path.join(d, f"{k}-{u}" if k < 6 else u)
             with open(p, "w", encoding="utf8", newline="") as fh:
                 fh.write(data)
             files.append((p, data))
@@ -392,6 +414,14 @@ def c17(tier, rep):
             if cli != json.loads(json.dumps(direct)):
                 rep.violation({"kind": "cli"}, {"engine": "cli", "what": "scripts/generate_events.py output differs from GherkinEvents.enum", "flags": flags,
                                                 "first": next(((a, b) for a, b in zip(cli, direct) if a != b), (len(cli), len(direct)))})
+        # ... in a process whose locale is not UTF-8 (feature files are UTF-8 whatever the locale), started from another directory
+        for flags, opts in ([], (True, True, True)), (["--no-ast"], (True, False, True)):
+            cli = S.cli_events([p for p, _ in files], flags, env_extra={"LC_ALL": "C", "LANG": "C", "PYTHONCOERCECLOCALE": "0", "PYTHONUTF8": "0", "PYTHONIOENCODING": "utf8"}, cwd="/")
+            direct = [e for seg in S.run_stream(files, opts) for e in seg]
+            rep.case(("cli-C-locale", tuple(flags)))
+            if cli != json.loads(json.dumps(direct)):
+                rep.violation({"kind": "cli-locale"}, {"engine": "cli", "what": "scripts/generate_events.py in a C-locale process differs from GherkinEvents.enum", "flags": flags,
+                                                       "first": next(((a, b) for a, b in zip(cli, direct) if a != b), (len(cli), len(direct)))})
         # every line the tool prints is one JSON envelope -- for every option combination, also when a source yields nothing
         import subprocess, sys as _sys
         from common import PYROOT
@@ -608,6 +638,13 @@ def c09(tier, rep):
         rep.violation({"kind": "spec-invariant", "invariant": inv}, {"engine": "MC_Interpolate", "what": f"{inv} violated", "tlc_tail": res2.out[-3000:]})
     for b in bad2[:50]:
         rep.violation({"kind": "interpolate:" + b["field"]}, {"engine": "interpolate", "what": "Compiler.compile substitutes differently from the specification", **b})
+    cases3, bad3, res3 = CL.interpolate("<>a\x1f\x00", 4 if tier == "quick" else 5, [["a"], ["a\x1f"], ["\x1f"], ["a", "\x1f"], ["\x00"]], [["x"], ["\x1f"], ["x\x1fy"], ["x", "y"], ["\x00<a>"]], tag="interp3")
+    rep.add_tlc("MC_Interpolate[separator characters]", res3, f"{len(cases3)} triples over an alphabet with U+001F and U+0000 (characters a program might use as its own separators)")
+    rep.traces += len(cases3)
+    for inv in sorted(set(res3.invariant_violations)):
+        rep.violation({"kind": "spec-invariant", "invariant": inv}, {"engine": "MC_Interpolate", "what": f"{inv} violated", "tlc_tail": res3.out[-3000:]})
+    for b in bad3[:50]:
+        rep.violation({"kind": "interpolate:" + b["field"]}, {"engine": "interpolate", "what": "Compiler.compile substitutes differently from the specification", **b})
     cases, bad, res = CL.interpolate("<>a.\\$", 4 if tier == "quick" else 5, headers, values)
     rep.add_tlc("MC_Interpolate", res, f"{len(cases)} (template, headers, values) triples: operational = declarative, unchanged, literal, sequential; replayed through Compiler.compile")
     rep.traces += len(cases)
@@ -821,6 +858,21 @@ def c16(tier, rep):
         rep.violation({"kind": "scanner"}, {"engine": "MC_Scanner", "what": "the real TokenScanner reads something else than the specification's stream", **b})
     for b in LY.file_vs_string(srcs[:: 3 if q else 1]):
         rep.violation({"kind": "file-vs-string"}, {"engine": "files", **b})
+    # ... whatever the locale of the process: files are UTF-8 (C locale without UTF-8 mode, another working directory)
+    import subprocess, sys as _sys, os
+    from common import VERIF, MachineryError
+    probe = ("import sys, json; sys.path.insert(0, sys.argv[1]); import layout as LY, engines as E, re\n"
+             "srcs = [x for x in E.src_corpus() + E.src_limits() if any(ord(c) > 127 for c in x[1]) and not re.search(r'\\r(?!\\n)', x[1]) and not E.known_finding_input(x[1])]\n"
+             "print(json.dumps({'n': len(srcs), 'bad': [{k: str(v)[:300] for k, v in b.items()} for b in LY.file_vs_string(srcs)]}))")
+    pr = subprocess.run([_sys.executable, "-c", probe, os.path.join(VERIF, "harness")], capture_output=True, text=True, cwd="/", timeout=600,
+                        env=dict(os.environ, LC_ALL="C", LANG="C", PYTHONCOERCECLOCALE="0", PYTHONUTF8="0", PYTHONDONTWRITEBYTECODE="1", PYTHONIOENCODING="utf8"))
+    if pr.returncode != 0:
+        raise MachineryError("locale probe failed: " + pr.stderr[-600:])
+    out = json.loads(pr.stdout.strip().splitlines()[-1])
+    rep.case(("file-vs-string-C-locale", out["n"]))
+    rep.traces += out["n"]
+    for b in out["bad"][:10]:
+        rep.violation({"kind": "file-vs-string-locale"}, {"engine": "files", "locale": "C, no UTF-8 mode", **b})
     crlf = [(n + "|crlf", s.replace("\n", "\r\n"), d) for n, s, d in srcs if "\r" not in s][:: 2 if q else 1]
     for b in LY.file_vs_string(crlf):
         rep.violation({"kind": "file-vs-string-crlf"}, {"engine": "files", **b})
